@@ -247,10 +247,15 @@ fn zoo_case(t: &mut Tape, rec: &mut Rec) -> CaseResult {
             // message builder: OPS + signature
             let mut cfg = MsgConfig::plain();
             cfg.signers = vec![(kind, kind.hashes()[0])];
-            cfg.fixed_sig_time = false;
+            // default subpackets, or caller-provided ones with every combination of issuer hints: the
+            // one-pass header names the signer whatever the signature's subpackets say
+            cfg.fixed_sig_time = t.bool();
+            cfg.issuer_hints = t.below(4) as u8;
+            let hints = if cfg.fixed_sig_time { cfg.issuer_hints } else { 0 };
+            rec.label(format!("ops:issuer-hints={hints}"));
             cfg.seed = t.seed32();
             let bytes = cfg.build(b"hello").map_err(|e| f("C13:builder-error", e.to_string()))?;
-            rec.describe(|| format!("{kind:?}: OPS and signature issuer fields of a builder-made message"));
+            rec.describe(|| format!("{kind:?}: OPS and signature issuer fields of a builder-made message (explicit subpackets: {}, issuer hints {hints})", cfg.fixed_sig_time));
             for rp in wire::split_packets(&bytes).unwrap() {
                 match rp.tag {
                     4 => {
@@ -267,7 +272,7 @@ fn zoo_case(t: &mut Tape, rec: &mut Rec) -> CaseResult {
                     }
                     2 => {
                         let sf = parse_sig(&rp.body).ok_or_else(|| f("C13:signature-does-not-decode", ""))?;
-                        check_issuer(rec, "message signature", &sf, v, &prim.0, &prim.1, true);
+                        check_issuer(rec, "message signature", &sf, v, &prim.0, &prim.1, hints == 0 || hints == 1);
                     }
                     _ => {}
                 }
